@@ -30,6 +30,7 @@ PID = 'C10'
 def work(item):
     nq, nz, tdeg, tpath, twist_mode, ridx, vidx, cells, canary = item[:9]
     window = item[9] if len(item) > 9 else None
+    hist = window is not None and window[0] % 2 == 0
     res = H.worker_result()
     m = dist.mods()
     adv = H.repo_import('pygyro.advection.advection')
@@ -85,6 +86,12 @@ def work(item):
         f = dist.symbolic_field('f', (nq, nz))
         f0 = f.copy()
         st.update(dt=dt, f0=f0, qpts=qpts, fa=fa)
+        if hist:
+            # history: the same object has already advanced another (r, v) line (its work arrays are reused)
+            g = np.empty((nq, nz), dtype=object)
+            for idx in np.ndindex(nq, nz):
+                g[idx] = K(Fr(1 + idx[0] + 3 * idx[1], 4))
+            fa.step(g, (vl + 1) % (L.ends[1] - L.starts[1]), (rl + 1) % (L.ends[0] - L.starts[0]))
         fa.step(f, vl, rl)
         return f
 
@@ -112,6 +119,9 @@ def work(item):
             rng = np.random.RandomState(5)
             f = rng.rand(nq, nz) * 2 - 1
             fin = f.copy()
+            if hist:
+                g = np.array([[(1 + i + 3 * j) / 4.0 for j in range(nz)] for i in range(nq)])
+                fa.step(g, (vl + 1) % (L.ends[1] - L.starts[1]), (rl + 1) % (L.ends[0] - L.starts[0]))
             fa.step(f, vl, rl)
             exp = oracle_float(fin, qpts, float(dtv))
             err = float(np.max(np.abs(f - exp)))
